@@ -79,6 +79,9 @@ fn main() {
             "c12_op" => vm::c12_op(r),
             "c04_env" => vm::c04_env(r),
             "c10_step" => vm::c10_step(r),
+            "c11_weight" => vm::c11_weight(r),
+            "c11_steps" => vm::c11_steps(r),
+            "c11_weigh_time" => vm::c11_weigh_time(r),
             "c10_random" => vm::c10_random(r),
             "c06_mutations" => c06::c06_mutations(r),
             "c08" => c06::c08(r),
